@@ -27,6 +27,8 @@ from . import core
 from . import repo
 
 VERIF = repo.VERIF
+# evidence/ and replays/ live under /verif unless a sensitivity run redirects them
+OUT = os.environ.get("VERIF_OUT") or VERIF
 MAX_DISTINCT = 3000000
 
 
@@ -349,7 +351,7 @@ def main(check, argv):
 		for v in rec["violations"]:
 			groups.setdefault(_violation_key(v), []).append((rec, v))
 	reported, known_hit, unreproduced = [], collections.OrderedDict(), []
-	os.makedirs(os.path.join(VERIF, "replays"), exist_ok=True)
+	os.makedirs(os.path.join(OUT, "replays"), exist_ok=True)
 	max_report = int(os.environ.get("VERIF_MAX_REPORT", "6"))
 	for key, occ in groups.items():
 		# all occurrences of a group share class+key; decide known-ness per group
@@ -392,7 +394,7 @@ def main(check, argv):
 				and not any(check.matches_known(v, case, k) for k in open_known):
 			small, out = case, check.run_case(case)
 			vs = [x for x in out.violations if x.klass == v["class"]]
-		path = os.path.join(VERIF, "replays", "%s-%s-%d-%s.json" % (check.prop_id,
+		path = os.path.join(OUT, "replays", "%s-%s-%d-%s.json" % (check.prop_id,
 			rec["leg"], rec["seed"], v["class"]))
 		core.dump_json({"property": check.prop_id, "tier": tier, "leg": rec["leg"],
 			"seed": rec["seed"], "base_seed": base_seed, "case": small,
@@ -408,7 +410,7 @@ def main(check, argv):
 				"detail": v.get("detail", "")[:700]})
 	for c in info["crashes"]:
 		case = check.gen_case(c["leg"], c["seed"], tier)
-		path = os.path.join(VERIF, "replays", "%s-%s-%d-crash.json" % (check.prop_id,
+		path = os.path.join(OUT, "replays", "%s-%s-%d-crash.json" % (check.prop_id,
 			c["leg"], c["seed"]))
 		core.dump_json({"property": check.prop_id, "tier": tier, "leg": c["leg"],
 			"seed": c["seed"], "case": case, "violation": {"class": "crash",
@@ -495,8 +497,8 @@ def write_evidence(check, tier, base_seed, agg, info, wall, reported, known_hit,
 		"wall_s": round(wall, 2),
 		"violations": len(reported),
 	}
-	os.makedirs(os.path.join(VERIF, "evidence"), exist_ok=True)
-	core.dump_json(ev, os.path.join(VERIF, "evidence", "%s.json" % check.prop_id))
+	os.makedirs(os.path.join(OUT, "evidence"), exist_ok=True)
+	core.dump_json(ev, os.path.join(OUT, "evidence", "%s.json" % check.prop_id))
 
 
 class Check(object):
